@@ -121,7 +121,8 @@ class Resolver:
                     i = el.get("i", 0)
                     e = ("upvar", ups[i] if i < len(ups) else str(i))
                 else:
-                    e = ("field", e, el["f"])
+                    fty = self._field_ty(el)
+                    e = ("field", e, el["f"], fty) if fty else ("field", e, el["f"])
             elif "downcast" in el:
                 e = ("downcast", e, el["downcast"])
             elif "index" in el:
@@ -132,6 +133,16 @@ class Resolver:
                 e = ("field", e, "<subslice>")
             e = simplify(e)
         return e
+
+    def _field_ty(self, el):
+        a = self.prog.adts.get(el.get("adt") or "")
+        if not a:
+            return None
+        tys = {f["ty"] for v in a["variants"] for f in v["fields"] if f["name"] == el["f"]}
+        if len(tys) == 1:
+            ty = tys.pop()
+            return ty if ty in ("u8", "u16", "u32", "u64", "usize", "bool", "char") else None
+        return None
 
     def local_init(self, l, at=(0, 0)):
         """value of the whole-local definitions of l, ignoring later field-by-field writes."""
